@@ -493,8 +493,9 @@ class ITerm2Image(GraphicsImage, metaclass=ITerm2ImageMeta):
             name, version = get_terminal_name_version()
             if name in {"iterm2", "konsole", "wezterm"}:
                 try:
+                    # e.g. "22.04" is the same version as "22.04.0"
                     if name != "konsole" or (
-                        tuple(map(int, version.split("."))) >= (22, 4, 0)
+                        (*map(int, version.split(".")), 0, 0)[:3] >= (22, 4, 0)
                     ):
                         cls._supported = True
                         cls._TERM, cls._TERM_VERSION = name, version
